@@ -238,9 +238,11 @@ def direct_expectations(prog, houses):
             exp = None
             if is_clone and form not in ("abs", "framer", "framerme", "framerinline", "frame", "frameme", "frameinline",
                                          "framemeofframer", "framermain", "framermaininline", "framemain", "framemaininline",
-                                         "framemainofframer", "framemainofframermain"):
+                                         "framemainofframer", "framemainofframermain", "framerstate"):
                 continue      # named / inode-relative forms inside clones are left to the renaming oracle
-            if form == "abs":
+            if form == "framerstate":
+                exp = ".framer.%s.state.%s" % (fname, w)
+            elif form == "abs":
                 exp = ref["abs"]
             elif form in ("framermain", "framermaininline"):
                 exp = ".framer.%s.%s" % (mainframe.framer.name, w)
